@@ -446,6 +446,8 @@ pub fn check(c: &Case, p: &mut Probe) -> Check {
         let mut prev: Option<f64> = None;
         let mut cnt = 0usize;
         let mut nonconv = 0usize;
+        // per transmitted position (8PSK: per symbol): frames in which the recovered noise is (all but) absent
+        let mut still = vec![0u32; kept];
         for f in frames.iter() {
             ensure!(f.len() == n, "frame-length", "decoder received {} LLRs, codeword length is {n} {ctx}", f.len());
             for i in 0..n {
@@ -506,6 +508,9 @@ pub fn check(c: &Case, p: &mut Probe) -> Check {
                     let b = [u8::from(l[0] <= 0.0), u8::from(l[1] <= 0.0), u8::from(l[2] <= 0.0)];
                     let a = TABLE.iter().find(|t| t.0 == b).unwrap().1;
                     let w = [y.0 - a.cos(), y.1 - a.sin()];
+                    if w[0].abs() < 1e-4 * sigma_e && w[1].abs() < 1e-4 * sigma_e {
+                        still[s] += 1;
+                    }
                     sw[0] += w[0];
                     sw[1] += w[1];
                     sw2[0] += w[0] * w[0];
@@ -524,6 +529,9 @@ pub fn check(c: &Case, p: &mut Probe) -> Check {
                     let y = -l / 2.0 * sigma_e * sigma_e;
                     let s = if l <= 0.0 { 1.0 } else { -1.0 };
                     let w = y - s;
+                    if w.abs() < 1e-4 * sigma_e {
+                        still[t] += 1;
+                    }
                     sw[0] += w;
                     sw2[0] += w * w;
                     sws += w * s;
@@ -543,6 +551,11 @@ pub fn check(c: &Case, p: &mut Probe) -> Check {
             let fresh = note_frame(f);
             ensure!(seen_frames.insert(key), "repeated-frame", "two frames handed to the decoder are bit-identical: messages/noise are not drawn independently per frame and worker {ctx}");
             ensure!(fresh, "repeated-frame-across-runs", "a frame handed to the decoder is bit-identical to a frame of an earlier simulation run in this process: messages/noise are replayed from run to run {ctx}");
+        }
+        // a Gaussian sample is this close to zero with probability 8e-5 (both components: 6e-9); five
+        // such frames at one position, and at least half of all frames, is not chance
+        if let Some((t, &q)) = still.iter().enumerate().max_by_key(|e| *e.1) {
+            ensure!(q < 5 || (q as usize) * 2 < frames.len(), "noise-absent-at-a-position", "transmitted position {t} (of {kept}) carries no noise in {q} of {} frames: the received sample is the transmitted symbol {ctx}", frames.len());
         }
         p.metric("nonconverged_inversions", nonconv as f64);
         ensure!(nonconv * 1000 <= cnt.max(1), "inversion", "{nonconv} of {cnt} 8PSK LLR triples could not be inverted to a received sample {ctx}");
@@ -698,7 +711,7 @@ pub fn property() -> Property {
         id: "C12",
         subs: vec![Box::new(Sub {
             name: "llr-frames",
-            rule: "configurations: systematic H by construction ([H0 | staircase] or [H0 | unit lower triangular], 2 <= r <= 12, n = p x bs with pattern length p in 1..=12 and bs a multiple of 3; in a fifth of the cases neither p nor bs is a multiple of 3, and with 8PSK the pattern then keeps 3, 6 or 9 blocks, so that the transmitted length is a multiple of 3 although the codeword length is not), puncturing pattern none / AR4JA-like 1,1,1,1,0 / random with >= 1 true (may puncture information blocks), interleaver none or +-c with c a divisor of the transmitted length, BPSK or 8PSK, Eb/N0 chosen for an expected sigma of 0.08-0.13 (BPSK) or 0.025-0.048 (8PSK); one Eb/N0 point, or two or three in any order whose sigmas halve from level to level (frames are attributed to a point by their mean |LLR|, which differs by a factor >= 4 between points; a point whose statistics report frames although none of its scale reached the decoder is a violation, as is a majority of frames more than a factor 2 away from every point's scale), through BerTest::new or BerTestBuilder, with the outer-code accounting threshold 0 (three fifths), 1 or 2; a probe DecoderFactory records every LLR vector and answers Err with one systematic bit flipped. Oracles per frame: length n; punctured positions bit-exactly +0.0, all others finite and non-zero; signs equal the own systematic re-encoding of the first k sign bits (or, when information blocks are punctured, extend to a codeword by an own GF(2) solve); reported k, N_cw, N, rate. no two recorded frames bit-identical (independence across frames and workers), nor identical to a frame of any earlier simulation of the same process (digests kept process-wide). Noise: received samples recovered from the LLRs (BPSK exactly, 8PSK by Gauss-Newton inversion of the own exact LLR function) with the expected sigma computed from (k, N after puncturing, bits per symbol, Eb/N0); mean, variance (Wilson-Hilferty), <w,s> scale statistic, lag-1 and re/im correlation within +-7 sigma, per Eb/N0 point, once >= 3500 samples were collected for it. Non-trivial = puncturing and interleaving both present, or 8PSK with either; inner = frames examined",
+            rule: "configurations: systematic H by construction ([H0 | staircase] or [H0 | unit lower triangular], 2 <= r <= 12, n = p x bs with pattern length p in 1..=12 and bs a multiple of 3; in a fifth of the cases neither p nor bs is a multiple of 3, and with 8PSK the pattern then keeps 3, 6 or 9 blocks, so that the transmitted length is a multiple of 3 although the codeword length is not), puncturing pattern none / AR4JA-like 1,1,1,1,0 / random with >= 1 true (may puncture information blocks), interleaver none or +-c with c a divisor of the transmitted length, BPSK or 8PSK, Eb/N0 chosen for an expected sigma of 0.08-0.13 (BPSK) or 0.025-0.048 (8PSK); one Eb/N0 point, or two or three in any order whose sigmas halve from level to level (frames are attributed to a point by their mean |LLR|, which differs by a factor >= 4 between points; a point whose statistics report frames although none of its scale reached the decoder is a violation, as is a majority of frames more than a factor 2 away from every point's scale), through BerTest::new or BerTestBuilder, with the outer-code accounting threshold 0 (three fifths), 1 or 2; a probe DecoderFactory records every LLR vector and answers Err with one systematic bit flipped. Oracles per frame: length n; punctured positions bit-exactly +0.0, all others finite and non-zero; signs equal the own systematic re-encoding of the first k sign bits (or, when information blocks are punctured, extend to a codeword by an own GF(2) solve); reported k, N_cw, N, rate. no two recorded frames bit-identical (independence across frames and workers), nor identical to a frame of any earlier simulation of the same process (digests kept process-wide). Noise: received samples recovered from the LLRs (BPSK exactly, 8PSK by Gauss-Newton inversion of the own exact LLR function) with the expected sigma computed from (k, N after puncturing, bits per symbol, Eb/N0); mean, variance (Wilson-Hilferty), <w,s> scale statistic, lag-1 and re/im correlation within +-7 sigma, per Eb/N0 point, once >= 3500 samples were collected for it; no transmitted position at which the recovered noise is below 1e-4 sigma in five or more frames and half of all frames. Non-trivial = puncturing and interleaving both present, or 8PSK with either; inner = frames examined",
             cases: |t| t.pick(500, 20_000),
             strategy,
             check,
